@@ -27,7 +27,7 @@ import (
 	"google.golang.org/grpc/status"
 )
 
-func init() { childMain = crashChild }
+func init() { childModes["1"] = crashChild }
 
 // readStoreState reads every configured log's latest checkpoint through a fresh,
 // fault-free connection (the store's own read path).
